@@ -18,6 +18,7 @@ import (
 	"net"
 	"os"
 	"path/filepath"
+	"runtime/debug"
 	"sort"
 	"strings"
 	"sync"
@@ -99,6 +100,8 @@ type cCfg struct {
 	Cont                bool
 	MinDiskMB           uint64
 	Amp                 int      // how much warmer than the scene the blob is
+	NFrames             int      // generator: exact number of events (0 = drawn)
+	AllMotion           bool     // generator: the blob toggles on every frame
 	MotionKeys          []string // "key = value" lines of [thermal-motion]
 	Exp                 goconfig.ThermalMotion
 	ThrOn               bool
@@ -461,7 +464,11 @@ func (s *cScene) next(kind byte, move bool) cEvent {
 			p[s.r.Draw(c.H)][c.W-1-s.r.Draw(edge)] = 0
 		}
 	}
-	s.up += uint32(1000 / c.Fps)
+	if step := uint32(1000 / c.Fps); step > 0 {
+		s.up += step
+	} else {
+		s.up++ // cameras faster than 1000 fps: time-on still identifies a frame
+	}
 	tel := zz.Tel{TimeOnMs: s.up, LastFFCMs: s.ffc, FrameCount: uint32(s.id), FrameMean: uint16(h >> 32), FPATemp: uint16(27000 + (h>>40)%6000), FPATempFFC: uint16(27000 + (h>>20)%6000), Noise: uint16(h >> 8)}
 	e := cEvent{Kind: kind, Pix: p, Tel: tel, ID: s.id}
 	s.id++
@@ -475,6 +482,9 @@ func genConn(r *verifsim.Run, focus string, cfg cCfg, firstID int) *cConn {
 	n := r.Range(20, 160)
 	if focus == "C04" || focus == "C05" || focus == "C06" {
 		n = r.Range(60, 260)
+	}
+	if c.NFrames > 0 {
+		n = c.NFrames
 	}
 	pBad, pClear, pTest := 0, 0, 0
 	if r.Chance(1, 3) {
@@ -493,6 +503,9 @@ func genConn(r *verifsim.Run, focus string, cfg cCfg, firstID int) *cConn {
 		if focus == "C04" || focus == "C05" || focus == "C06" {
 			seg = r.Pick(1, 6, 2) // mostly motion, so that starts are attempted all along the run
 			m = r.Range(5, 80)
+		}
+		if c.AllMotion {
+			seg, m = 1, n
 		}
 		for i := 0; i < m && len(cn.Ev) < n; i++ {
 			move := false
@@ -748,6 +761,9 @@ func execPlain(sc *cScenario) *cResult {
 				defer func() {
 					if p := recover(); p != nil {
 						cr.Panic = fmt.Sprint(p)
+						if os.Getenv("VERIF_DEBUGLOG") != "" {
+							fmt.Printf("panic in handleConn: %v\n%s\n", p, debug.Stack())
+						}
 						a.Close()
 					}
 				}()
@@ -1135,8 +1151,36 @@ func runCE2E(r *verifsim.Run) {
 		nConn = r.OneOf(2, 3)
 		r.Probe("stratum-large-frame-cameras")
 	}
+	// stratum: a very fast camera is connected first (a few frames only), then the usual slow one, with a
+	// long max-secs: settings derived for one camera (frames per recording) must not leak into the next
+	fastFirst := !big && (r.Prop == "C11" || r.Prop == "C03") && r.Chance(1, 25)
+	if fastFirst {
+		nConn = 2
+		r.Probe("stratum-fast-camera-first")
+	}
 	for i := 0; i < nConn; i++ {
 		cfg := genCfg(r, r.Prop)
+		if fastFirst {
+			if i == 0 {
+				cfg.Fps = r.OneOf(120, 200, 255) // a CPTV header holds the frame rate in 8 bits
+				cfg.Preview = 1
+				cfg.MaxS = r.Range(65535/cfg.Fps-2, 65535/cfg.Fps+40)
+				cfg.MinS = r.Range(1, 3)
+				cfg.ThrOn = false
+				cfg.WinStart, cfg.WinStop = "12:00", "12:00"
+				cfg.MinDiskMB = 0
+				cfg.Exp = goconfig.DefaultThermalMotion(cfg.Model)
+				cfg.MotionKeys = []string{"dynamic-threshold = false", "temp-thresh = 2900", "delta-thresh = 50", "count-thresh = 3", "frame-compare-gap = 1"}
+				cfg.Exp.DynamicThreshold, cfg.Exp.TempThresh, cfg.Exp.DeltaThresh, cfg.Exp.CountThresh, cfg.Exp.FrameCompareGap = false, 2900, 50, 3, 1
+				cfg.Amp = 400
+				cfg.NFrames = r.Range(1, 12)
+			} else {
+				cfg = sc.Conns[0].Cfg
+				cfg.Fps = 1
+				cfg.AllMotion = true
+				cfg.NFrames = cfg.MaxS + r.Range(3, 60)
+			}
+		}
 		if big {
 			cfg.Model = "boson"
 			cfg.Exp = goconfig.DefaultThermalMotion(cfg.Model)
@@ -1152,7 +1196,7 @@ func runCE2E(r *verifsim.Run) {
 				cfg = d0
 			}
 		}
-		if !big && i > 0 && r.Chance(1, 2) {
+		if !big && !fastFirst && i > 0 && r.Chance(1, 2) {
 			cfg = sc.Conns[0].Cfg // same camera reconnects
 			if r.Chance(1, 2) {
 				// ... or another camera is plugged in while the daemon keeps running (config.toml untouched, the
@@ -1163,7 +1207,11 @@ func runCE2E(r *verifsim.Run) {
 		if r.Prop == "C14" {
 			cfg.Cont = true
 		}
-		cn := genConn(r, r.Prop, cfg, id)
+		focus := r.Prop
+		if fastFirst && i == 1 {
+			focus = "C05" // long stretches of motion
+		}
+		cn := genConn(r, focus, cfg, id)
 		if big {
 			// few frames, delivered in large pieces (a byte at a time would take minutes)
 			if len(cn.Ev) > 25 {
